@@ -99,3 +99,22 @@ def latin_session(rng, n, calls, limit=None):
             steps.append({"a": "add_key_all"})
         steps.append({"a": c, "w": w})
     return steps
+
+
+def wide_sum_session(rng, n, calls):
+    """n booleans and their count (more operands in one sum than any small case has): the only solution has every boolean
+    true, supplied as the witness.  Variables are declared through one bool_array call."""
+    steps = [{"a": "bool_array", "shape": [n]}, {"a": "int_var", "lo": 0, "hi": n}]
+    bs = [{"f": "var", "id": i} for i in range(n)]
+    rng.shuffle(bs)
+    cnt = {"f": "count_true", "args": [{"f": "list", "args": bs[: n // 2], "style": "list"}] + bs[n // 2:]}
+    steps.append({"a": "ensure", "x": {"f": "eq", "args": [cnt, {"f": "var", "id": n}]}})
+    steps.append({"a": "ensure", "x": {"f": "ge", "args": [{"f": "var", "id": n}, {"f": "ilit", "n": n}]}})
+    w = [[1] * n + [n]]
+    keyed = False
+    for c in dict.fromkeys(calls):
+        if c == "solve" and not keyed:
+            keyed = True
+            steps.append({"a": "add_key_all"})
+        steps.append({"a": c, "w": w})
+    return steps
